@@ -211,7 +211,7 @@ def step (st : St) (j : Json) : St × List String :=
       | .err e => "err:" ++ e
       | .panic p => "panic:" ++ p
     let cs := String.intercalate " " (calls.map showCall)
-    ({ st with w := w' }, ["calls=[" ++ cs ++ "] " ++ out])
+    ({ st with w := w' }, ["calls=[" ++ cs ++ "] " ++ overHTTP (jBool j "http") out])
   | "introspect" =>
     let res := if jBool j "extended" then introspectExtended st.cfg st.w t (jStr j "token")
                else introspectPlain st.cfg st.w t (jStr j "token")
